@@ -15,6 +15,16 @@
 (*                                                                         *)
 (* Known deviations of the code from the intended design are boolean       *)
 (* constants DevXxx (FALSE = intended design, TRUE = as coded).            *)
+(*                                                                         *)
+(* Concurrent use (application threads sharing one NodeList): with         *)
+(* Callers # {} every call is split into the steps between which another   *)
+(* thread may run - the schedule points are the acquisitions of a node     *)
+(* lock (Node.__lock__) and the moment between search and record inside    *)
+(* Node.find_slot.  NodeList itself has no lock: the rotating index and    *)
+(* the last-failed cache are read and written unprotected, one node at a   *)
+(* time is locked.  A caller c works for the holder of the same name.      *)
+(* The steps are those of the rig (nodealloc_rig.ConcRig), so a behaviour  *)
+(* of this model is an exact thread schedule for the real classes.         *)
 (***************************************************************************)
 EXTENDS NodeAllocOps, TLC
 
@@ -25,23 +35,34 @@ CONSTANTS Holders,             \* who may hold a placement
           DevPosVsIndex,       \* (b) rollback / release look the node up by position
           DevSupDupUnchecked,  \* supplied slot: a resource listed twice is checked per entry
           DevNegIndexPartial,  \* supplied slot: negative index passes the check, raises half-way
-          DevCacheInverted     \* (c) last-failed cache compares the wrong way round
+          DevCacheInverted,    \* (c) last-failed cache compares the wrong way round
+          Callers,             \* application threads (subset of Holders); {} == sequential use
+          DevSearchOutsideLock \* find_slot records the slot it found after leaving the node lock
 
-VARIABLES O, idx, lrr, ln, H, R, out
+VARIABLES O, idx, lrr, ln, H, R, out,
+          lock,                \* [Node -> Callers \cup {"free"}]  (Node.__lock__)
+          cs                   \* [Callers -> what the caller is in the middle of]
 
-vars == <<O, idx, lrr, ln, H, R, out>>
+vars == <<O, idx, lrr, ln, H, R, out, lock, cs>>
 
 Out(k, q) == [k |-> k, q |-> q]
 Fails     == {"raise", "cached", "none", "refused"}
+
+\* pc: idle | acq (about to lock a node and search it) | rec (slot found, not yet recorded)
+\*     | rb (giving back a partial grant) | rel (release_slots under way) | sup (allocate_slot)
+Idle == [pc |-> "idle", q |-> 0, start |-> 0, i |-> 0, got |-> <<>>, cand |-> NoSlot, p |-> <<>>]
 
 Init ==
   /\ O = InitOcc /\ idx = 0 /\ lrr = NoRR /\ ln = 0
   /\ H = [h \in Holders |-> <<>>]
   /\ R = [h \in Holders |-> 0]
   /\ out = Out("init", 0)
+  /\ lock = [n \in Node |-> "free"]
+  /\ cs = [c \in Callers |-> Idle]
 
 (* ---- NodeList.find_slots(rr, n_slots) ------------------------------------- *)
 FindSlots(h, q) ==
+  /\ Callers = {}                  \* sequential use: the call is one step
   /\ H[h] = <<>>
   /\ LET rr == Reqs[q].rr
          n  == Reqs[q].n IN
@@ -65,18 +86,21 @@ FindSlots(h, q) ==
                /\ IF rb.ok THEN lrr' = rr /\ ln' = n /\ out' = Out("none", q)
                            ELSE UNCHANGED <<lrr, ln>> /\ out' = Out("raise", q)
                /\ UNCHANGED <<idx, H, R>>
+  /\ UNCHANGED <<lock, cs>>
 
 (* ---- Node.allocate_slot(slot, _check=True) with an application-chosen slot - *)
 Supply(h, k) ==
+  /\ Callers = {}
   /\ R[h] = 0 /\ Len(H[h]) < 2
   /\ LET r == SupOutcome(O, Sups[k], DevSupDupUnchecked, DevNegIndexPartial) IN
      /\ O' = r.O
      /\ IF r.ok THEN H' = [H EXCEPT ![h] = Append(@, ToGhost(Sups[k]))] /\ out' = Out("ok", k)
                 ELSE UNCHANGED H /\ out' = Out("refused", k)
-  /\ UNCHANGED <<idx, lrr, ln, R>>
+  /\ UNCHANGED <<idx, lrr, ln, R, lock, cs>>
 
 (* ---- NodeList.release_slots(slots) ---------------------------------------- *)
 Release(h) ==
+  /\ Callers = {}
   /\ H[h] # <<>>
   /\ LET r == RelSeq(O, H[h], 1, DevPosVsIndex, DevNoLfsRaises) IN
      /\ O' = r.O
@@ -87,11 +111,132 @@ Release(h) ==
   \* the application has given the placement back, whatever the call did
   /\ H' = [H EXCEPT ![h] = <<>>]
   /\ R' = [R EXCEPT ![h] = 0]
+  /\ UNCHANGED <<lock, cs>>
 
-Next == \E h \in Holders :
-           \/ \E q \in 1 .. Len(Reqs) : FindSlots(h, q)
-           \/ \E k \in 1 .. Len(Sups) : Supply(h, k)
-           \/ Release(h)
+(* ------------------------------------------------------------------------ *)
+(* concurrent callers: the same calls, one step per schedule point           *)
+(* (the give-back steps are those of the repaired code: node looked up by    *)
+(* its index, lfs / mem guarded)                                             *)
+(* ------------------------------------------------------------------------ *)
+Set(c, r)   == cs' = [cs EXCEPT ![c] = r]
+NodeOf(c)   == IdAt(WrapPos(cs[c].start + cs[c].i))
+RRof(c)     == Reqs[cs[c].q].rr
+Nof(c)      == Reqs[cs[c].q].n
+
+\* find_slots up to the first node lock: _assert_rr, last-failed cache, start index
+CFindStart(c, q) ==
+  /\ cs[c].pc = "idle" /\ H[c] = <<>>
+  /\ LET rr == Reqs[q].rr  n == Reqs[q].n IN
+     IF AssertRejects(rr, n)
+     THEN out' = Out("raise", q) /\ UNCHANGED cs
+     ELSE IF CacheHit(lrr, ln, rr, n, DevCacheInverted)
+     THEN out' = Out("cached", q) /\ UNCHANGED cs
+     ELSE /\ Set(c, [Idle EXCEPT !.pc = "acq", !.q = q, !.start = idx])
+          /\ UNCHANGED out
+  /\ UNCHANGED <<O, idx, lrr, ln, H, R, lock>>
+
+\* Node.find_slot, first half: take the node lock and search
+CAcqSearch(c) ==
+  /\ cs[c].pc = "acq" /\ lock[NodeOf(c)] = "free"
+  /\ LET n == NodeOf(c)
+         s == FindSlot(O, n, RRof(c)) IN
+     IF s.node # -1
+     THEN \* found: the lock is kept until the slot is recorded (intended)
+          /\ Set(c, [cs[c] EXCEPT !.pc = "rec", !.cand = s])
+          /\ lock' = IF DevSearchOutsideLock THEN lock ELSE [lock EXCEPT ![n] = c]
+          /\ UNCHANGED <<lrr, ln, out>>
+     ELSE \* this node offers nothing (more): lock released, next node
+          /\ UNCHANGED lock
+          /\ IF cs[c].i + 1 < NNodes
+             THEN Set(c, [cs[c] EXCEPT !.i = @ + 1]) /\ UNCHANGED <<lrr, ln, out>>
+             ELSE IF cs[c].got # <<>>
+             THEN Set(c, [cs[c] EXCEPT !.pc = "rb"]) /\ UNCHANGED <<lrr, ln, out>>
+             ELSE /\ Set(c, Idle)
+                  /\ lrr' = RRof(c) /\ ln' = Nof(c) /\ out' = Out("none", cs[c].q)
+  /\ UNCHANGED <<O, idx, H, R>>
+
+\* Node.find_slot, second half: allocate_slot(slot, _check=False) adds the occupations
+\* blindly; the node lock is released on the way out
+CRecord(c) ==
+  /\ cs[c].pc = "rec"
+  /\ LET s == cs[c].cand  n == cs[c].cand.node  g == Append(cs[c].got, cs[c].cand) IN
+     /\ \/ lock[n] = c
+        \/ DevSearchOutsideLock /\ lock[n] = "free"
+     /\ lock' = [lock EXCEPT ![n] = "free"]
+     /\ O' = Apply1(O, s, 1)
+     /\ H' = [H EXCEPT ![c] = Append(@, s)]
+     /\ IF Len(g) = Nof(c)
+        THEN /\ Set(c, Idle)
+             /\ idx' = WrapPos(cs[c].start + cs[c].i)
+             /\ R' = [R EXCEPT ![c] = cs[c].q]
+             /\ out' = Out("grant", cs[c].q)
+        ELSE /\ Set(c, [cs[c] EXCEPT !.pc = "acq", !.got = g, !.cand = NoSlot])
+             /\ UNCHANGED <<idx, R, out>>
+  /\ UNCHANGED <<lrr, ln>>
+
+\* find_slots, not enough slots: free whatever we got, one deallocate_slot per step
+CRollback(c) ==
+  /\ cs[c].pc = "rb"
+  /\ LET s == Head(cs[c].got) IN
+     /\ lock[s.node] = "free"
+     /\ O' = Apply1(O, s, -1)
+     /\ H' = [H EXCEPT ![c] = Tail(@)]
+     /\ IF Tail(cs[c].got) = <<>>
+        THEN /\ Set(c, Idle)
+             /\ lrr' = RRof(c) /\ ln' = Nof(c) /\ out' = Out("none", cs[c].q)
+        ELSE /\ Set(c, [cs[c] EXCEPT !.got = Tail(@)])
+             /\ UNCHANGED <<lrr, ln, out>>
+  /\ UNCHANGED <<idx, R, lock>>
+
+\* release_slots: one deallocate_slot per step, cache and index at the end
+CRelStart(c) ==
+  /\ cs[c].pc = "idle" /\ H[c] # <<>>
+  /\ Set(c, [Idle EXCEPT !.pc = "rel", !.got = H[c], !.p = H[c]])
+  /\ R' = [R EXCEPT ![c] = 0]
+  /\ UNCHANGED <<O, idx, lrr, ln, H, out, lock>>
+
+CRelStep(c) ==
+  /\ cs[c].pc = "rel"
+  /\ LET s == Head(cs[c].got) IN
+     /\ lock[s.node] = "free"
+     /\ O' = Apply1(O, s, -1)
+     /\ H' = [H EXCEPT ![c] = Tail(@)]
+     /\ IF Tail(cs[c].got) = <<>>
+        THEN /\ Set(c, Idle)
+             /\ idx' = IF lrr.nc # -1 THEN MinNode(cs[c].p) - 1 ELSE idx
+             /\ lrr' = NoRR /\ ln' = 0 /\ out' = Out("released", 0)
+        ELSE /\ Set(c, [cs[c] EXCEPT !.got = Tail(@)])
+             /\ UNCHANGED <<idx, lrr, ln, out>>
+  /\ UNCHANGED <<R, lock>>
+
+\* allocate_slot(slot, _check=True): node index / name are compared before the lock
+CSupStart(c, k) ==
+  /\ cs[c].pc = "idle" /\ R[c] = 0 /\ Len(H[c]) < 2
+  /\ IF Sups[k].at \in Pos /\ IdAt(Sups[k].at) = Sups[k].node
+     THEN Set(c, [Idle EXCEPT !.pc = "sup", !.q = k]) /\ UNCHANGED out
+     ELSE out' = Out("refused", k) /\ UNCHANGED cs
+  /\ UNCHANGED <<O, idx, lrr, ln, H, R, lock>>
+
+CSupApply(c) ==
+  /\ cs[c].pc = "sup" /\ lock[Sups[cs[c].q].node] = "free"
+  /\ LET r == SupOutcome(O, Sups[cs[c].q], DevSupDupUnchecked, DevNegIndexPartial) IN
+     /\ O' = r.O
+     /\ IF r.ok THEN H' = [H EXCEPT ![c] = Append(@, ToGhost(Sups[cs[c].q]))] /\ out' = Out("ok", cs[c].q)
+                ELSE UNCHANGED H /\ out' = Out("refused", cs[c].q)
+  /\ Set(c, Idle)
+  /\ UNCHANGED <<idx, lrr, ln, R, lock>>
+
+\* (one flat disjunction: TLC names the sub-actions and their arguments in its behaviour dumps)
+Next == \/ \E h \in Holders :
+              \/ \E q \in 1 .. Len(Reqs) : FindSlots(h, q)
+              \/ \E k \in 1 .. Len(Sups) : Supply(h, k)
+              \/ Release(h)
+        \/ \E c \in Callers :
+              \/ \E q \in 1 .. Len(Reqs) : CFindStart(c, q)
+              \/ CAcqSearch(c) \/ CRecord(c) \/ CRollback(c)
+              \/ CRelStart(c) \/ CRelStep(c)
+              \/ \E k \in 1 .. Len(Sups) : CSupStart(c, k)
+              \/ CSupApply(c)
 Spec == Init /\ [][Next]_vars
 
 (* ------------------------------------------------------------------------ *)
@@ -100,6 +245,8 @@ Spec == Init /\ [][Next]_vars
 TypeOK == /\ out.k \in {"init", "raise", "cached", "none", "grant", "ok", "refused", "released", "relraise"}
           /\ \A h \in Holders : R[h] \in 0 .. Len(Reqs)
           /\ ln \in Nat
+          /\ \A n \in Node : lock[n] \in Callers \cup {"free"}
+          /\ \A c \in Callers : cs[c].pc \in {"idle", "acq", "rec", "rb", "rel", "sup"}
 
 \* C01
 InvNoCoreShared   == NoCoreShared(H)
@@ -121,6 +268,17 @@ ActRestores      == [][\A h \in Holders : (H[h] # <<>> /\ H'[h] = <<>>) => O' = 
 \* a call that grants nothing leaves the map unchanged (partial grants are rolled back)
 ActFailedUnchanged == [][(out'.k \in Fails) => O' = O]_vars
 ActReleaseClean    == [][(out'.k \in {"released", "relraise"}) => out'.k = "released"]_vars
+
+\* concurrent use: no resource is ever occupied beyond one whole, a lock is held only
+\* between search and record, and what a caller records is what it still finds free
+InvOccBound == /\ \A n \in Node : \A c \in Core : O.cores[n][c] = DOWNV \/ O.cores[n][c] \in 0 .. SU
+               /\ \A n \in Node : \A g \in Gpu  : O.gpus[n][g]  = DOWNV \/ O.gpus[n][g]  \in 0 .. SU
+               /\ HasLfs => \A n \in Node : O.lfs[n] \in 0 .. LfsCap /\ O.mem[n] \in 0 .. MemCap
+InvLockDiscipline == \A n \in Node : lock[n] # "free" => (cs[lock[n]].pc = "rec" /\ cs[lock[n]].cand.node = n)
+InvRecordStillFree == \A c \in Callers : cs[c].pc = "rec" => Room(O, cs[c].cand)
+\* a caller that is not in the middle of a call holds a complete placement or nothing
+InvCallerShape == \A c \in Callers : (cs[c].pc = "idle" /\ R[c] # 0 /\ H[c] # <<>>)
+                     => ShapeOK(Reqs[R[c]].rr, Reqs[R[c]].n, H[c])
 
 \* not part of C01-C03 (progress): a request refused without a search does not fit
 NoteCacheSound == (out.k = "cached") => ~SearchFits(O, Reqs[out.q].rr, Reqs[out.q].n)
